@@ -252,4 +252,61 @@ theorem C18_history_from_empty_partial (H : Hashes) (dl : Nat) (ops : List Op) (
   let h := history_refines H dl ops {} inv_empty hg
   ⟨h.1, h.2.1⟩
 
+/-! ## non-vacuity: a realistic history meets the hypotheses -/
+
+/-- hash functions for evaluating examples in the kernel (any functions do: the theorems quantify over them) -/
+def H0 : Hashes := ⟨fun c => c.take 2, fun _ => [1], fun _ => [2], fun _ => [3], fun _ => [4]⟩
+
+def bka : Bytes := [98, 107, 97]
+def kDE : Bytes := [100, 47, 101]       -- "d/e"
+def kDF : Bytes := [100, 47, 102]       -- "d/f"
+def kA : Bytes := [97]                  -- "a"
+def kX : Bytes := [120]                 -- "x"
+def alice : Who := some [65]
+def bob : Who := some [66]
+
+/-- a realistic history inside `Good`: bucket, writes with and without metadata, whole / ranged / suffix reads, head,
+    prefix listing with marker, copy, delete, a multipart upload driven by its owner and refused to another identity -/
+def demo : List Op := [
+  .createBucket bka,
+  .putObject bka kDE [1, 2, 3, 4, 5] (some [([109], [118])]) {} none,
+  .putObject bka kA [] none {} none,
+  .getObject bka kDE none,
+  .getObject bka kDE (some (.int 1 (some 3))),
+  .getObject bka kDE (some (.int 2 none)),
+  .getObject bka kDE (some (.suffix 2)),
+  .getObject bka kDE (some (.int 7 none)),
+  .headObject bka kDE,
+  .listObjectsV2 bka (some [100, 47]) none (some kA) none,
+  .copyObject bka kDE bka kDF,
+  .listObjects bka none none none (some 1000),
+  .deleteObject bka kA,
+  .createMultipartUpload alice bka kX (some [([116], [117])]),
+  .uploadPart bob bka kX (some 1) 1 [7],
+  .uploadPart alice bka kX (some 1) 1 [7, 8, 9],
+  .listParts alice bka kX (some 1),
+  .completeMultipartUpload bob bka kX (some 1) (some [some 1]),
+  .completeMultipartUpload alice bka kX (some 1) (some [some 1]),
+  .getObject bka kX none,
+  .createMultipartUpload bob bka kA none,
+  .abortMultipartUpload bob bka kA (some 2),
+  .deleteObject bka kDE, .deleteObject bka kDF, .deleteObject bka kX,
+  .deleteBucket bka,
+  .listBuckets ]
+
+/-- the hypotheses of the history theorem hold of `demo` from the empty directory (kernel evaluation) -/
+example : GoodRun H0 4096 {} demo := by decide
+
+/-- … so the theorem applies to it -/
+example : (run H0 4096 {} demo).2.map Resp.core = (StoreSpec.run H0 {} demo).2.map Resp.core :=
+  (C18_history_from_empty_partial H0 4096 demo (by decide)).1
+
+/-- the per-operation predicates are inhabited on a state with objects: an overwrite carrying metadata, a ranged read,
+    a copy between objects that both have metadata files -/
+example : PutOk (run H0 4096 {} (demo.take 3)).1 bka kDE (some []) := by decide
+example : GetOk (run H0 4096 {} (demo.take 3)).1 bka kDE (some (.int 0 (some 99))) := by decide
+example : CopyOk (run H0 4096 {} (demo.take 11)).1 bka kDE bka kDF := by decide
+/-- … and they do exclude the recorded deviations: an overwrite without metadata over an object that has some -/
+example : ¬ PutOk (run H0 4096 {} (demo.take 3)).1 bka kDE none := by decide
+
 end S3V.C18
